@@ -187,7 +187,7 @@ def gen(rng, tier):
         comps = "".join(" distanceZ {\n  name c%d\n  componentCoeff %s\n  main { atomNumbers %d }\n  ref { dummyAtom (0.0, 0.0, 0.0) }\n  axis (0.0, 0.0, 1.0)\n  oneSiteTotalForce on\n }\n"
                         % (i, num(c), i + 1) for i, c in enumerate(coef))
         conf = "colvar {\n name xi\n outputTotalForce on\n%s}\n" % comps
-        lines = ["m.new %d" % len(coef), "M.noclock", "m.opt tf_same 1", "m.opt smp %s" % ["none", "cvcs"][k % 2], cfg(conf), "S.names cvs=xi biases="]
+        lines = ["m.new %d" % len(coef), "M.noclock", "m.opt tf_same 1", "m.opt smp %s" % ["none", "cvcs"][k % 2], cfg(conf), "S.names cvs=xi biases=", "V.comb xi " + " ".join(fbits(c_) for c_ in coef)]
         n = len(coef)
         sched = [[1] * n] + [rng.choice([[1, 0, 1], [0, 1, 1], [1, 0, 0], [0, 1, 0], [0, 0, 1], [1, 1, 0]])[:n] if n == 3 else rng.choice([[1, 0], [0, 1]]) for _ in range(7)]
         if n == 2:
